@@ -103,6 +103,9 @@ fn diag_renders(e: &SemverError) -> bool {
 }
 
 /// the answer of an op, or `panic` if the crate panicked while computing it
+/// operand text standing for `Range::any()`
+pub const ANY: &str = "@any";
+
 fn guarded(f: impl FnOnce() -> String) -> String {
     quiet(f).unwrap_or_else(|_| "panic".into())
 }
@@ -400,11 +403,18 @@ impl Out {
 
     /// the four binary operations on the *printed* forms of the operands (canonical texts)
     pub fn setops(&mut self, _ta: &str, a0: &Range, _tb: &str, b0: &Range) {
-        let (ta, tb) = match (quiet(|| a0.to_string()), quiet(|| b0.to_string())) {
+        let (mut ta, mut tb) = match (quiet(|| a0.to_string()), quiet(|| b0.to_string())) {
             (Ok(x), Ok(y)) => (x, y),
             _ => return,
         };
-        let (a, b) = match (Range::parse(&ta), Range::parse(&tb)) {
+        // `Range::any()` has no text that parses back to it (`*` reads as `>=0.0.0`): it travels as `@any`
+        if _ta == ANY {
+            ta = ANY.into();
+        }
+        if _tb == ANY {
+            tb = ANY.into();
+        }
+        let (a, b) = match (try_range(&ta), try_range(&tb)) {
             (Ok(x), Ok(y)) => (x, y),
             // a printed range that does not parse back is reported by the round-trip stream
             _ => {
